@@ -1574,3 +1574,238 @@ func isPureBoolHelper(f *ssa.Function) bool {
 	})
 	return pure
 }
+
+// ruleSyncedOffsetPublishedUnderLock (R09o): the sync loop reads the appended offset,
+// flushes without holding the WAL mutex and then publishes that offset as synced. A
+// truncation that runs during the flush sets both offsets to the new end; publishing the
+// older value afterwards makes LastOffset() — what readers are bounded by and followers
+// acknowledge — point behind the end of the log.
+func ruleSyncedOffsetPublishedUnderLock(h *H, rule string) {
+	h.Rule(rule, "K2", "in the WAL's sync loop the store of the synced offset after the flush is made with a mutex of the WAL held and under a comparison of state read in that critical section with state captured before the flush (no truncation in between); that state is only changed under the same mutex", 2)
+	wt := h.implType(rule, "server/wal", "Wal")
+	if wt == nil {
+		return
+	}
+	tn := wt.Obj().Name()
+	flushSpec := ir.Callee{Pkg: "server/wal", Recv: "ReadWriteSegment", Name: "Flush"}
+	n := 0
+	for _, w := range h.P.FieldWrites("server/wal", tn, "lastSyncedOffset") {
+		fn := w.Fn
+		flushes := h.P.CallsIn(fn, flushSpec)
+		if len(flushes) == 0 {
+			continue
+		}
+		var flush ssa.CallInstruction
+		for _, f := range flushes {
+			if r, _ := ir.Reach(ir.Search{From: f}, ir.Is(w.Instr)); r {
+				flush = f
+			}
+		}
+		if flush == nil {
+			continue
+		}
+		n++
+		h.Fn(ir.FuncName(fn))
+		name := "synced offset published after the flush in " + ir.FuncName(fn)
+		held := ir.HeldAt(fn)[w.Instr]
+		if len(held) == 0 {
+			h.Bad(rule, name, h.pos(w.Instr), "the synced offset read before the flush is stored without any mutex: a TruncateLog (or Clear) that ran during the flush has already lowered both offsets, and the store moves LastOffset() back above the end of the log — a follower then acknowledges entries it no longer has")
+			continue
+		}
+		isState := func(v ssa.Value) (ssa.Instruction, bool) {
+			c := ir.Canon(v)
+			if r, ok := ir.FieldLoadOf(c); ok && r.Struct != nil && r.Struct.Obj().Name() == tn {
+				in, _ := c.(ssa.Instruction)
+				return in, in != nil
+			}
+			if call, ok := c.(*ssa.Call); ok {
+				if f := call.Call.StaticCallee(); f != nil && f.Name() == "Load" && len(call.Call.Args) == 1 {
+					if r, ok := ir.FieldAddrOf(call.Call.Args[0]); ok && r.Struct != nil && r.Struct.Obj().Name() == tn {
+						return call, true
+					}
+				}
+			}
+			return nil, false
+		}
+		guarded := false
+		for _, c := range ir.CmpGuards(w.Instr) {
+			a, okA := isState(c.L)
+			b, okB := isState(c.R)
+			if !okA || !okB {
+				continue
+			}
+			before := func(x ssa.Instruction) bool { return ir.Dominates(x, flush) }
+			after := func(x ssa.Instruction) bool { return ir.Dominates(flush, x) }
+			if (before(a) && after(b)) || (before(b) && after(a)) {
+				guarded = true
+			}
+		}
+		h.Verdict(guarded, rule, name, h.pos(w.Instr), "under a mutex ("+ir.HeldString(held)+") and a comparison with the state captured before the flush",
+			"the store is under the mutex but not conditioned on the log being untouched since the offset was read: a truncation during the flush is overwritten")
+		// the compared state is only changed under the same mutex
+		if guarded {
+			for _, c := range ir.CmpGuards(w.Instr) {
+				for _, side := range []ssa.Value{c.L, c.R} {
+					in, ok := isState(side)
+					if !ok || !ir.Dominates(flush, in) {
+						continue
+					}
+					var ref ir.FieldRef
+					if r, ok := ir.FieldLoadOf(ir.Canon(side)); ok {
+						ref = r
+					} else if call, ok := ir.Canon(side).(*ssa.Call); ok && len(call.Call.Args) == 1 {
+						ref, _ = ir.FieldAddrOf(call.Call.Args[0])
+					}
+					if ref.Struct == nil {
+						continue
+					}
+					for _, sw := range h.P.FieldWrites("server/wal", tn, ref.Field) {
+						if sw.Kind == "literal" {
+							continue
+						}
+						same := false
+						for l := range ir.HeldAt(sw.Fn)[sw.Instr] {
+							if held[l] {
+								same = true
+							}
+						}
+						h.Verdict(same, rule, "guard state "+ref.Field+" changed in "+ir.FuncName(sw.Fn), h.pos(sw.Instr), "under the mutex of the publication",
+							"the state the publication compares is changed without the mutex the publication holds: check and store are not atomic with respect to a truncation")
+					}
+				}
+			}
+		}
+	}
+	if n == 0 {
+		h.Anchor(rule, "a store of "+tn+".lastSyncedOffset after ReadWriteSegment.Flush")
+	}
+}
+
+// ruleSyncLoopAvoidsProducersMutex (R09p): appenders enqueue their sync request on a
+// bounded channel while holding the WAL mutex. The sync loop — the only consumer of that
+// channel — may therefore take that mutex only right after it drained the channel; taking it
+// after the (slow) flush, when the channel may have filled up again, deadlocks the log: the
+// appender waits for room in the channel, the sync loop for the mutex.
+func ruleSyncLoopAvoidsProducersMutex(h *H, rule string) {
+	h.Rule(rule, "K2", "in the WAL's sync loop no mutex that a producer of the sync-request channel may hold while sending is acquired on a path from the segment flush that does not first receive from that channel", 1)
+	wt := h.implType(rule, "server/wal", "Wal")
+	if wt == nil {
+		return
+	}
+	tn := wt.Obj().Name()
+	isReqChan := func(v ssa.Value) bool {
+		r, ok := ir.FieldLoadOf(ir.Canon(v))
+		if !ok || r.Struct == nil || r.Struct.Obj().Name() != tn {
+			return false
+		}
+		ch, ok := v.Type().Underlying().(*types.Chan)
+		if !ok {
+			return false
+		}
+		_, isFunc := ch.Elem().Underlying().(*types.Signature)
+		return isFunc
+	}
+	receives := func(in ssa.Instruction) bool {
+		switch x := in.(type) {
+		case *ssa.UnOp:
+			return x.Op == token.ARROW && isReqChan(x.X)
+		case *ssa.Select:
+			for _, st := range x.States {
+				if st.Dir == types.RecvOnly && isReqChan(st.Chan) {
+					return true
+				}
+			}
+		}
+		return false
+	}
+	clean := func(l string) string { return strings.TrimPrefix(l, "R:") }
+	mayHeld := map[string]bool{}
+	var consumers []*ssa.Function
+	drains := map[*ssa.Function]bool{}
+	for _, fn := range h.P.Funcs {
+		if ir.RelPkg(ir.PkgPathOf(fn)) != "server/wal" || fn.Blocks == nil {
+			continue
+		}
+		hasRecv := false
+		ir.Instrs(fn, func(in ssa.Instruction) {
+			if receives(in) {
+				hasRecv = true
+			}
+			sends := false
+			switch x := in.(type) {
+			case *ssa.Send:
+				sends = isReqChan(x.Chan)
+			case *ssa.Select:
+				for _, st := range x.States {
+					if st.Dir == types.SendOnly && isReqChan(st.Chan) {
+						sends = true
+					}
+				}
+			}
+			if !sends {
+				return
+			}
+			for l := range ir.HeldAtFrom(fn, nil)[in] {
+				mayHeld[clean(l)] = true
+			}
+			// callers (two levels) that hold a lock over the call
+			level := []*ssa.Function{fn}
+			for d := 0; d < 2; d++ {
+				var next []*ssa.Function
+				for _, g := range level {
+					for _, site := range ir.StaticCallSites(g) {
+						for l := range ir.HeldAtFrom(site.Parent(), nil)[site] {
+							mayHeld[clean(l)] = true
+						}
+						next = append(next, site.Parent())
+					}
+				}
+				level = next
+			}
+		})
+		if hasRecv {
+			drains[fn] = true
+			if len(h.P.CallsIn(fn, segFlush)) > 0 {
+				consumers = append(consumers, fn)
+			}
+		}
+	}
+	if len(consumers) == 0 {
+		h.Anchor(rule, "the function of server/wal that receives from the sync-request channel and flushes the segment")
+		return
+	}
+	for _, fn := range consumers {
+		h.Fn(ir.FuncName(fn))
+		drained := func(in ssa.Instruction) bool {
+			if receives(in) {
+				return true
+			}
+			if c := ir.CallOf(in); c != nil {
+				if g := c.StaticCallee(); g != nil && drains[g] {
+					return true
+				}
+			}
+			return false
+		}
+		bad := false
+		for _, o := range ir.LockOps(fn) {
+			if (o.Op != "Lock" && o.Op != "RLock") || !mayHeld[clean(o.Lock)] {
+				continue
+			}
+			for _, f := range h.P.CallsIn(fn, segFlush) {
+				if r, path := ir.Reach(ir.Search{From: f, Barrier: drained}, ir.Is(o.Instr)); r {
+					bad = true
+					h.Bad(rule, "mutex taken after the flush in "+ir.FuncName(fn), h.pos(o.Instr), "the sync loop acquires "+o.Lock+" after the flush without having received from the request channel: an appender that holds this mutex while waiting for room in the (bounded) channel and the sync loop wait for each other — the log stops", witness(path))
+				}
+			}
+		}
+		if !bad {
+			var names []string
+			for l := range mayHeld {
+				names = append(names, l)
+			}
+			sortStrings(names)
+			h.OK(rule, "mutexes of the producers in "+ir.FuncName(fn), h.P.Pos(fn.Pos()), "producers may hold ["+strings.Join(names, ", ")+"]; the loop takes them only right after receiving from the channel")
+		}
+	}
+}
